@@ -143,3 +143,28 @@ pub proof fn lemma_compound(d: u32, x: u32)
     assert(((d << 26) | x) >> 26 == d && ((d << 26) | x) & !(0b111111u32 << 26) == x) by (bit_vector)
         requires d < 0b111111u32, x < 0x400_0000u32;
 }
+
+// ---- the index of a compound id is its row in the per-kind reflection table ------------------
+// compile_meta_builtins writes one row per type of each kind, in the order of
+// `tys_to_compile`; get_type_info looks a type up by the index in its id.  So the index a type
+// gets must be the number of types of the same kind that are already in the list when it is
+// appended (to_type_id appends right after the id has been computed).
+pub open spec fn count_kind(s: Seq<Intern<Ty>>, d: u32) -> nat decreases s.len() {
+    if s.len() == 0 { 0 } else { count_kind(s.drop_last(), d) + (if kind_discr(*s.last().0) == d { 1nat } else { 0nat }) }
+}
+pub open spec fn gen_of(m: MetaTyData, d: u32) -> u32 {
+    if d == 16 { m.struct_uid_gen.inner } else if d == 17 { m.distinct_uid_gen.inner } else if d == 18 { m.array_uid_gen.inner }
+    else if d == 19 { m.slice_uid_gen.inner } else if d == 20 { m.pointer_uid_gen.inner } else if d == 21 { m.function_uid_gen.inner }
+    else if d == 22 { m.enum_uid_gen.inner } else if d == 23 { m.variant_uid_gen.inner } else if d == 24 { m.optional_uid_gen.inner }
+    else if d == 25 { m.error_union_uid_gen.inner } else { 0 }
+}
+pub open spec fn row_ok(m: MetaTyData, d: u32, d0: u32) -> bool {
+    gen_of(m, d) == count_kind(m.tys_to_compile@, d) + (if d == d0 { 1nat } else { 0nat })
+}
+/// every generator stands at the number of rows its table will have so far
+pub open spec fn rows_ok(m: MetaTyData) -> bool { rows_pending(m, 0) }
+/// ... except that kind `d0` has just handed out the index of the type about to be appended
+pub open spec fn rows_pending(m: MetaTyData, d0: u32) -> bool {
+    row_ok(m, 16, d0) && row_ok(m, 17, d0) && row_ok(m, 18, d0) && row_ok(m, 19, d0) && row_ok(m, 20, d0)
+    && row_ok(m, 21, d0) && row_ok(m, 22, d0) && row_ok(m, 23, d0) && row_ok(m, 24, d0) && row_ok(m, 25, d0)
+}
